@@ -195,6 +195,12 @@ func init() {
 			}
 			mark := Pick(r, cands)
 			mark.alias, mark.name, mark.sels, mark.args, mark.dirs = "mk", "zzz", nil, nil, nil
+			needle, key, tlen := "mk:", "mk", 2
+			if r.Bool() {
+				// no alias: the field name itself is the first token (it can be followed by a newline)
+				mark.alias, mark.name = "", "zzmk"
+				needle, key, tlen = "zzmk", "zzmk", 4
+			}
 			injectFailures(r, s, g, d)
 			root, w, _ := newWorld(s, g)
 			_ = w
@@ -205,13 +211,13 @@ func init() {
 			base := d.text()
 			for li, doc := range c07Layouts(r, base) {
 				res := safeResolve(root, doc, opName, d.vars)
-				off := strings.Index(doc, "mk:")
+				off := strings.Index(doc, needle)
 				obs := N("noloc")
 				if ea, ok := res["errors"].([]interface{}); ok {
 					for _, e := range ea {
 						em, _ := e.(map[string]interface{})
 						p, _ := em["path"].([]interface{})
-						if len(p) == 0 || p[len(p)-1] != "mk" {
+						if len(p) == 0 || p[len(p)-1] != key {
 							continue
 						}
 						if l, ok := em["locations"].([]interface{}); ok && len(l) > 0 {
@@ -230,7 +236,7 @@ func init() {
 				}
 				o.Count(fmt.Sprintf("layout=%d", li))
 				// character offset (the model works on characters; documents here are ASCII)
-				o.Emit(Case{Term: N("c07loc", S(doc), I(int64(off)), I(2)), Obs: obs,
+				o.Emit(Case{Term: N("c07loc", S(doc), I(int64(off)), I(int64(tlen))), Obs: obs,
 					Meta: map[string]interface{}{"doc": doc, "layout": li, "response": fmt.Sprint(res)}, Nontrivial: true})
 				c07Envelope(o, root, doc, opName, d.vars, "valid-layouts")
 			}
